@@ -99,10 +99,11 @@ def table_cases(rnd, n):
                 if b"\n" in b or b"\r" in b:
                     b = b.replace(b"\n", b" ").replace(b"\r", b" ")
                 bits, ts = bits_ts(b)
-                ls.append("in %s %d %d" % (tg.hx(b), bits, ts))
+                # "inm": the caller's buffer is overwritten as soon as Dispatch returns, as the plain input's scanner does
+                ls.append("%s %s %d %d" % (rnd.choice(["in", "inm"]), tg.hx(b), bits, ts))
             else:
                 line, bits, ts = tg.metric_line(rnd, invalid_p=0.3)
-                ls.append("in %s %d %d" % (tg.hx(line), bits, ts))
+                ls.append("%s %s %d %d" % (rnd.choice(["in", "inm"]), tg.hx(line), bits, ts))
             if rnd.random() < 0.1:
                 ls.append("bad")
         out.append(("t%d" % i, t + ls + ["bad"]))
@@ -116,11 +117,11 @@ def gate_monitor(lines, out):
     i = 0
     rejected = {}
     for l in lines:
-        if not l.startswith("in "):
+        if not l.startswith(("in ", "inm ")):
             continue
     # walk the output: each 'res' line followed by its d/a/ad lines
     cur = None
-    ins = [l for l in lines if l.startswith(("in ", "bad"))]
+    ins = [l for l in lines if l.startswith(("in ", "inm ", "bad"))]
     k = 0
     pending = []
     for o in out:
